@@ -111,6 +111,17 @@ class SBV:
     def __invert__(s):
         return mk(~s.z)
 
+    def bit_length(s):
+        """int.bit_length(): a path decision per possible position of the highest set bit"""
+        z = z3.If(s.z < 0, -s.z, s.z)
+        for k in range(0, WID):
+            if decide(z3.ULT(z, z3.BitVecVal(1 << k, WID))):
+                return k
+        return WID
+
+    def bit_count(s):
+        raise symex.Unsupported('int.bit_count of a symbolic word')
+
     def __add__(s, o):
         return mk(s.z + bv(o))
 
@@ -283,6 +294,10 @@ class NDB(ND):
         elif isinstance(val, int):
             val = bv(val)
         ND.__setitem__(s, key, val)
+
+    def __len__(s):
+        n = s.shape[0]
+        return n if isinstance(n, int) else n.__index__()
 
     def sum(s):
         n = s.shape[0]
@@ -488,6 +503,10 @@ def configs(tier, seed):
     for i in range(ngrp):
         cfgs.append(dict(kind='bitreader', name='bit reader step, unread bits %s' % nbs[i::ngrp], nbitgets=nbs[i::ngrp], zmax=3 if tier == 'quick' else 8,
                          nbins=(0, 1, 2, 5, 8, 16, 31, 32) if tier == 'quick' else (0, 1, 2, 3, 4, 5, 7, 8, 13, 16, 24, 31, 32)))
+    # long unary runs: the zeros cover the rest of the current word and at least one whole following word
+    for nbg in ((0, 7, 32) if tier == 'quick' else (0, 1, 7, 16, 31, 32)):
+        cfgs.append(dict(kind='bitreader', name='bit reader step, unary runs of 30-70 zeros, unread bits %d' % nbg, nbitgets=[nbg], zmin=30, zmax=70,
+                         nbins=(0, 2) if tier == 'quick' else (0, 2, 5)))
     cfgs.append(dict(kind='divlemma', name='c99_div lemma'))
     for v in (['123_1pcbe', '123_2ulaw'] if tier == 'quick' else ['123_1pcbe', '123_1pcle', '123_1ulaw', '123_2pcbe', '123_2pcle', '123_2ulaw']):
         cfgs.append(dict(kind='prefix', name='prefix ' + v, vector=v, blocks=1 if tier == 'quick' else 2))
@@ -786,6 +805,7 @@ def run_bitreader(cfg, tier):
     stream -- z zero bits, a one, nbin mantissa bits -- and leave the reader exactly behind it (position, current
     word).  Together with the stream-start state (nbitget = 0) this covers every alignment a stream can produce."""
     zmax = cfg['zmax']
+    zmin = cfg.get('zmin', 0)
     subs = dict(np=NPs, struct=Struct, memoryview=lambda x: x, float=sfloat, int=sint, warnings=Warn)
     got = {}
     subs['__BITREADER_HOOK__'] = lambda *fns: fns
@@ -807,7 +827,9 @@ def run_bitreader(cfg, tier):
 
             def bit(i):
                 return z3.Extract(total - 1 - i, total - 1 - i, B)
-            c.assume(z3.Or([bit(pos + i) == 1 for i in range(zmax + 1)]))      # unary run of at most zmax zeros
+            c.assume(z3.Or([bit(pos + i) == 1 for i in range(zmin, zmax + 1)]))      # unary run of at most zmax zeros
+            for i in range(zmin):
+                c.assume(bit(pos + i) == 0)                                         # ... and of at least zmin
             more = []
             for w in ws:
                 more += [z3.Extract(31 - 8 * k, 24 - 8 * k, w) for k in range(4)]
@@ -822,7 +844,7 @@ def run_bitreader(cfg, tier):
                 symex.guard(e)
                 return ('exception', '%s: %s' % (type(e).__name__, e))
             z = None
-            for i in range(zmax + 1):
+            for i in range(zmin, zmax + 1):
                 if decide(bit(pos + i) == 1):
                     z = i
                     break
